@@ -1,7 +1,7 @@
 (* CoreInv.v -- the state invariant of the core-loop model: top-level statements.
    Build order: CoreInvBase, CoreInvDefs, CoreInvFd, CoreInvPoll, CoreInvReg,
-   CoreInvObj, CoreInvAct, CoreInvTm, CoreInvLoop, CoreInvActA, CoreInvWait,
-   CoreInvTop, CoreInv.
+   CoreInvObj, CoreInvAct, CoreInvActR, CoreInvActB, CoreInvActC, CoreInvTm,
+   CoreInvLoop, CoreInvActA, CoreInvWait, CoreInvTop, CoreInv.
 
    Inv s  = InvW s /\ Quiet s (CoreInvDefs.v): InvW holds wherever a handler
    script can run, Quiet adds the clauses that are suspended inside the loop
@@ -11,8 +11,8 @@
 From Coq Require Import List ZArith Bool Lia.
 From Ivv Require Export Core.CoreInvBase Core.CoreInvDefs.
 From Ivv Require Import Core.Kernel Core.CoreTypes Core.CoreFd Core.CoreModel Core.CoreSpec
-  Core.CoreInvFd Core.CoreInvPoll Core.CoreInvReg Core.CoreInvObj Core.CoreInvAct
-  Core.CoreInvTm Core.CoreInvLoop Core.CoreInvActA Core.CoreInvWait Core.CoreInvTop.
+  Core.CoreInvFd Core.CoreInvPoll Core.CoreInvReg Core.CoreInvObj Core.CoreInvAct Core.CoreInvActR
+  Core.CoreInvActB Core.CoreInvActC Core.CoreInvTm Core.CoreInvLoop Core.CoreInvActA Core.CoreInvWait Core.CoreInvTop.
 From Ivv Require Timer.HeapModel Timer.HeapSpec.
 Import ListNotations.
 Local Open Scope Z_scope.
